@@ -156,8 +156,30 @@ Parse(c) ==
           \cup F("imports", SeqToSet(o.imports) # SeqToSet(i.imports))
           \cup F("natives", NativeSet(o) # NativeSet(i))
 
+\* unit-timing normalisation (C19).  Subcircuit annotations: the schedule is computed with the blocks'
+\* annotations erased on both sides; the annotations themselves are the clause sub_annotations.
+RECURSIVE EraseSubStmt(_)
+EraseSubStmt(s) ==
+  CASE s.k = "blk" -> [s EXCEPT !.sub = FALSE, !.iters = NumI(1), !.body = [j \in DOMAIN s.body |-> EraseSubStmt(s.body[j])]]
+    [] s.k = "loop" -> [s EXCEPT !.body = EraseSubStmt(s.body)]
+    [] OTHER -> s
+EraseSubProg(p) == [p EXCEPT !.body = [j \in DOMAIN p.body |-> EraseSubStmt(p.body[j])]]
+UnitTiming(c) ==
+  LET i == c.inp  o == c.out.prog
+      lip == \E j \in DOMAIN i.body : LoopInPar(i.body[j], FALSE)
+  IN F("error_type", c.out.cls \notin {"ok", "jaqal_error"})
+     \cup F("loop_in_par_rejected", lip /\ c.out.cls # "jaqal_error")
+     \cup F("accepted", ~lip /\ c.out.cls # "ok")
+     \cup IF ~Ok(c) \/ lip THEN {}
+        ELSE F("flat", ~FlatBody(o))
+             \cup F("schedule", Schedule(EraseSubProg(o)) # Schedule(EraseSubProg(i)))
+             \cup F("sub_annotations", HasSubInBody(i) /\ ~HasSubInBody(o))
+             \cup F("header_carried", LetsOf(o) # LetsOf(i) \/ RegsOf(o) # RegsOf(i) \/ NativeSet(o) # NativeSet(i) \/ MacroSet(o) # MacroSet(i))
+             \cup F("imports_carried", SeqToSet(o.imports) # SeqToSet(i.imports))
+
 Clauses(c) ==
   CASE c.site = "parse" -> Parse(c)
+    [] c.site = "unit_timing" -> UnitTiming(c)
     [] c.site = "expand_macros" -> ExpandMacros(c, FALSE)
     [] c.site = "expand_macros_preserve" -> ExpandMacros(c, TRUE)
     [] c.site = "fill_in_let" -> FillInLet(c)
